@@ -4,6 +4,7 @@
 // case: {"k":n,"lo":[x,y,z],"hi":[..],"s":v,"reg":[dmin,dmax],"objs":[[x,y,z],..],"unit":u,"off":o}
 // physical coordinate = off + lattice * unit
 #include "vjson.hpp"
+#include "custom_structures.hpp"
 #include "uspg_3d.hpp"
 #include "uspg_4d.hpp"
 #include <algorithm>
@@ -121,6 +122,41 @@ int main(int argc, char** argv) {
             if (h4 != gc4 || h3 != gc3) reuse_same = false;
         }
         o.key("reuse_same").b(reuse_same);
+        // the grids store objects BY VALUE: the same questions with the structured element type the simulator stores in them
+        // (oriented_point: id, position, normal, a flag), objects with alternating flags, several per voxel -- what is read back from
+        // a voxel must be, field by field, what was placed (uspg_3d keeps the last one placed in a voxel, uspg_4d all of them)
+        bool struct_same = true;
+        {
+            uspg_4d<oriented_point> s4(P(lo[0]), P(lo[1]), P(lo[2]), P(hi[0]), P(hi[1]), P(hi[2]), (double)s * unit, nobj);
+            uspg_3d<oriented_point> s3(P(lo[0]), P(lo[1]), P(lo[2]), P(hi[0]), P(hi[1]), P(hi[2]), (double)s * unit, nobj);
+            std::vector<oriented_point> placed;
+            std::map<std::array<unsigned, 3>, unsigned> last_in_voxel;
+            for (size_t i = 0; i < nobj; i++) {
+                auto p = c["objs"][i].ivec();
+                oriented_point op((unsigned)i + 1, vec3(P(p[0]), P(p[1]), P(p[2])), vec3((double)i, -1. - (double)i, 0.5));
+                op.created_by_poisson_sampling_ = (i % 2 == 0);
+                placed.push_back(op);
+                auto v = s4.get_3d_voxel_index(P(p[0]), P(p[1]), P(p[2]));
+                if (!inside(v, nb4)) continue;
+                s4.place_object(op, P(p[0]), P(p[1]), P(p[2]));
+                // uspg_3d holds one object per voxel: a decoy with the opposite flag is placed first, so that the object itself always
+                // lands in an OCCUPIED voxel (overwriting is an assignment, placing into an empty voxel may be a construction)
+                oriented_point decoy(0u, vec3(P(p[0]), P(p[1]), P(p[2])), vec3(9., 9., 9.));
+                decoy.created_by_poisson_sampling_ = !op.created_by_poisson_sampling_;
+                s3.place_object(decoy, P(p[0]), P(p[1]), P(p[2]));
+                s3.place_object(op, P(p[0]), P(p[1]), P(p[2]));
+                last_in_voxel[v] = (unsigned)i + 1;
+            }
+            auto same = [&](const oriented_point& a, const oriented_point& b) {
+                return a.id_ == b.id_ && a.created_by_poisson_sampling_ == b.created_by_poisson_sampling_ && a.position_.dx() == b.position_.dx() && a.position_.dy() == b.position_.dy() &&
+                       a.position_.dz() == b.position_.dz() && a.normal_.dx() == b.normal_.dx() && a.normal_.dy() == b.normal_.dy() && a.normal_.dz() == b.normal_.dz(); };
+            for (auto& kv : last_in_voxel) {
+                for (const oriented_point& q : s4.get_voxel_content(kv.first[0], kv.first[1], kv.first[2])) if (q.id_ < 1 || q.id_ > nobj || !same(q, placed[q.id_ - 1])) struct_same = false;
+                auto oc = s3.get_voxel_content(kv.first[0], kv.first[1], kv.first[2]);
+                if (!oc || !same(oc.value(), placed[kv.second - 1])) struct_same = false;
+            }
+        }
+        o.key("struct_same").b(struct_same);
         o.key("exact").b(!c.has("exact") || c["exact"].boolean());
         o.end_obj();
         fprintf(fo, "%s\n", o.text().c_str());
